@@ -39,7 +39,15 @@ CLAIM = dict(
          "assignment of ContentRange objects. _DictAccessorProperty.__get__ / __set__ / __delete__, parse_age, dump_age and "
          "parse_set_header are pinned statement by statement. Contracts (Section variables, validated by the harness against the library): "
          "http_date / parse_date (email.utils, datetime; over naive, UTC, fixed-offset, zero-offset and ZoneInfo zones), "
-         "parse_options_header inverting dump_options_header (property C06). Known finding: a set view holding case-insensitive duplicates drifts.",
+         "parse_options_header inverting dump_options_header (property C06). Known finding: a set view holding case-insensitive duplicates drifts."
+         " Statement pins: tools/pins/c16_views.txt: _set_property and the view methods of sansio Response (on_update callbacks translated: "
+         "holes), cache_control_property, _CacheControl (minus the translated _set_cache_value), ResponseCacheControl, "
+         "csp_property, ContentSecurityPolicy, WWWAuthenticate, _CallbackProperty, ContentRange, CallbackDict, _always_update, "
+         "UpdateDictMixin, the http.py codecs (quote / unquote_header_value, dump_header, dump_options_header, dump_csp_header, "
+         "parse_list / dict / set / cache_control / csp / content_range header, quote / unquote_etag, parse_date, http_date, "
+         "parse_age, dump_age, is_byte_range_valid, COOP, COEP), _dt_as_utc, _DictAccessorProperty, header_property, "
+         "get_content_type. Validated differentially only, no pin wanted: urllib.request.parse_http_list, email.utils, datetime, "
+         "int / str (CPython library code); parse_options_header (a contract here; property C06 owns it).",
     design="6/C16")
 
 
@@ -94,7 +102,11 @@ def _inner_def(fn, name):
 
 
 def gen() -> None:
-    c08.gen()
+    deferred = None
+    try:
+        c08.gen()
+    except px.Unsupported as e:      # reported at the end: a refusal in the containers must not stop this regeneration
+        deferred = e
     sr = px.load("sansio/response.py")
     cc = px.load("datastructures/cache_control.py")
     mx = px.load("datastructures/mixins.py")
@@ -257,7 +269,7 @@ def gen() -> None:
     if [ast.unparse(s) for s in c08._body(c08._method(P, "_del_value"))] != ["if key in self:\n    del self[key]"]:
         raise px.Unsupported("ContentSecurityPolicy._del_value changed")
     # ---- WWWAuthenticate: attribute routing, digest quoting table, pinned shapes
-    au = px.load("datastructures/auth.py")
+    au = au_mod = px.load("datastructures/auth.py")
     W = px.find_class(au, "WWWAuthenticate")
     sa = c08._body(c08._method(W, "__setattr__"))
     if not (len(sa) == 1 and isinstance(sa[0], ast.If) and isinstance(sa[0].test, ast.Compare) and isinstance(sa[0].test.comparators[0], ast.Set)
@@ -362,6 +374,31 @@ def gen() -> None:
         if len(fns) != 1 or [ast.unparse(x) for x in c08._body(fns[0])] != want:
             raise px.Unsupported(f"http.{fname} changed")
     px.write_if_changed(os.path.join(COQ, "C16", "Gen.v"), out)
+    # ---- statement pins (after Gen.v is written): everything the view models and oracles stand for that is not translated
+    def table_row(a):
+        v = a.value
+        f = v.func.value if isinstance(v, ast.Call) and isinstance(v.func, ast.Subscript) else getattr(v, "func", None)
+        return isinstance(f, ast.Name) and f.id in ("header_property", "_set_property", "cache_control_property", "csp_property")
+    not_views = ["__init__", "__repr__", "status_code", "status", "_clean_status", "set_cookie", "delete_cookie", "is_json"]
+    text = "# sansio/response.py\n" + c08.pin_items(sr, ["_set_property", ("Response", not_views)], None,
+                                                    lambda a: table_row(a) or not isinstance(a.value, ast.Call),
+                                                    ("_set_property", "cache_control", "content_security_policy", "content_range"))
+    text += "# datastructures/cache_control.py\n" + c08.pin_items(
+        cc, ["cache_control_property", ("_CacheControl", ["_set_cache_value"]), "ResponseCacheControl"], None, table_row)
+    text += "# datastructures/csp.py\n" + c08.pin_items(csp, ["csp_property", "ContentSecurityPolicy"], None, table_row)
+    text += "# datastructures/auth.py\n" + c08.pin_items(au_mod, ["WWWAuthenticate"])
+    text += "# datastructures/range.py\n" + c08.pin_items(px.load("datastructures/range.py"), ["_CallbackProperty", "ContentRange"])
+    text += "# datastructures/structures.py\n" + c08.pin_items(px.load("datastructures/structures.py"), ["CallbackDict"])
+    text += "# datastructures/mixins.py\n" + c08.pin_items(mx, ["_always_update", "UpdateDictMixin"])
+    text += "# http.py\n" + c08.pin_items(ht, [
+        "COEP", "COOP", "_charset_value_re", "quote_header_value", "unquote_header_value", "dump_options_header", "dump_header", "dump_csp_header",
+        "parse_list_header", "parse_dict_header", "parse_cache_control_header", "parse_csp_header", "parse_set_header",
+        "parse_content_range_header", "quote_etag", "unquote_etag", "parse_date", "http_date", "parse_age", "dump_age", "is_byte_range_valid"])
+    text += "# _internal.py\n" + c08.pin_items(it, ["_dt_as_utc", "_DictAccessorProperty"])
+    text += "# utils.py\n" + c08.pin_items(px.load("utils.py"), ["header_property", "get_content_type"])
+    px.check_pin("C16", "c16_views.txt", text, "a response header view method the C16 model or its oracles stand for")
+    if deferred is not None:
+        raise deferred
 
 
 # ====================================================================== harness: encodings (shared with C08)
